@@ -91,6 +91,24 @@ def must_fail(phrase, setting, enabled=None):
             f = setting[len(t):].split(b"$", 1)[0]
             if f.isdigit() and int(f) > 999999999:
                 return "cost-above-maximum"
+    if setting[:3] in (b"$2a", b"$2b", b"$2x", b"$2y") and setting[3:4] == b"$" and (enabled is None or classify(setting, enabled)):
+        # crypt(5): \$2[abxy]\$[0-9]{2}\$..., cost 04..31 - two decimal digits and nothing else
+        f = setting[4:7]
+        if len(f) == 3 and not (f[:2].isdigit() and f[2:3] == b"$" and 4 <= int(f[:2]) <= 31):
+            return "bad-cost"
+    if setting.startswith(b"$7$") and len(setting) > 14 and (enabled is None or "scrypt" in enabled):
+        # the raw scrypt salt is everything between the 11 parameter characters and the LAST '$' (or the end):
+        # crypt(5) gives it the alphabet [./A-Za-z0-9]; the library additionally lets '$' through.  Anything else
+        # inside it is malformed.
+        # (what follows a '$' whose next character is outside the alphabet is ignored by the library and by the
+        # released versions alike: such a tail is not judged)
+        rest = setting[14:]
+        for i, c in enumerate(rest):
+            if c in A64SET or c == 0x24:
+                continue
+            if i > 0 and rest[i - 1] == 0x24:
+                break
+            return "bad-salt-char"
     if setting.startswith(b"$sha1$"):
         # crypt(5): the sha1crypt cost is a decimal number of at most 4,294,967,295.  A negative one is malformed
         # (strtoul would read it as 2^64 - n), and so is one above the documented maximum.
